@@ -13,6 +13,7 @@ import (
 	"strings"
 	"time"
 
+	pdclient "github.com/tikv/pd/client"
 	"github.com/tikv/pd/pkg/tsoutil"
 	"github.com/tikv/pd/pkg/typeutil"
 	"github.com/tikv/pd/server/config"
@@ -273,7 +274,33 @@ func (w *world) exec(op string) (string, int) {
 	return "bad-op", id
 }
 
+// pure client-side functions (no allocator state involved)
+func pureOp(f []string) (string, bool) {
+	atoi := func(s string) int64 { n, _ := strconv.ParseInt(s, 10, 64); return n }
+	switch {
+	case f[0] == "csplit" && len(f) == 5: // physical, logical (highest), suffix bits, count
+		ps, ls := pdclient.VerifSplitBatch(atoi(f[1]), atoi(f[2]), uint32(atoi(f[3])), int(atoi(f[4])))
+		var parts []string
+		for i := range ls {
+			parts = append(parts, fmt.Sprintf("%d:%d", ps[i], ls[i]))
+		}
+		return strings.Join(parts, " "), true
+	case f[0] == "tsle" && len(f) == 5:
+		if pdclient.VerifTSLessEqual(atoi(f[1]), atoi(f[2]), atoi(f[3]), atoi(f[4])) {
+			return "true", true
+		}
+		return "false", true
+	case f[0] == "compose" && len(f) == 3:
+		return fmt.Sprintf("%d", tsoutil.ComposeTS(atoi(f[1]), atoi(f[2]))), true
+	}
+	return "", false
+}
+
 func (w *world) run(t *trace.W, op string) string {
+	if o, ok := pureOp(strings.Fields(op)); ok {
+		t.Line(op, o)
+		return o
+	}
 	out, id := w.exec(op)
 	view := "0:0:0:0"
 	if m := w.mems[id]; m != nil {
@@ -439,6 +466,18 @@ func main() {
 		return
 	}
 	r := rng.FromEnv(*stream)
+	// client-side batch distribution, fallback detector and 64-bit composition
+	w.run(t, "reset 3000000000 86400000")
+	for i := 0; i < 150; i++ {
+		bits := r.Intn(5)
+		count := []int{1, 1, 2, 3, 7, 64, 500}[r.Intn(7)]
+		raw := count + r.Intn(1<<uint(17-bits))
+		suffix := r.Intn(1 << uint(bits))
+		w.run(t, fmt.Sprintf("csplit %d %d %d %d", baseNs/1e6+int64(r.Intn(1000)), raw<<uint(bits)+suffix, bits, count))
+		a, b := r.Intn(4), r.Intn(4)
+		w.run(t, fmt.Sprintf("tsle %d %d %d %d", a, r.Intn(3), b, r.Intn(3)))
+		w.run(t, fmt.Sprintf("compose %d %d", baseNs/1e6+int64(r.Intn(1<<20)), r.Intn(1<<18)))
+	}
 	for s := 0; s < *n; s++ {
 		gen(w, t, r, *maxOps)
 	}
